@@ -1,2 +1,524 @@
-(* Lemmas about Model/Bookmarks.v (stub). *)
-From Klog Require Import Base.Prelude Model.Bookmarks.
+(* Lemmas about Model/Bookmarks.v: the collection is a finite map, the database file round trip,
+   and the refinement of the file-level commands by the map-level specification. *)
+From Klog Require Import Base.Prelude Base.Utf8 Model.Json Model.Bookmarks Proofs.Json.
+From Coq Require Import ZifyBool ZifyN Sorted Permutation.
+Open Scope N_scope.
+
+(* ---------- byte order ---------- *)
+
+Lemma bytes_eqb_refl a : bytes_eqb a a = true.
+Proof. apply bytes_eqb_eq. reflexivity. Qed.
+
+Lemma bytes_eqb_neq a b : a <> b -> bytes_eqb a b = false.
+Proof. intros H. destruct (bytes_eqb a b) eqn:E; [|reflexivity]. apply bytes_eqb_eq in E. contradiction. Qed.
+
+Lemma bytes_eqb_false a b : bytes_eqb a b = false -> a <> b.
+Proof. intros H ->. rewrite bytes_eqb_refl in H. discriminate. Qed.
+
+Lemma bytes_eqb_sym a b : bytes_eqb a b = bytes_eqb b a.
+Proof.
+  destruct (bytes_eqb a b) eqn:E.
+  - apply bytes_eqb_eq in E. subst. symmetry. apply bytes_eqb_refl.
+  - symmetry. apply bytes_eqb_neq. intros ->. rewrite bytes_eqb_refl in E. discriminate.
+Qed.
+
+Lemma ltb_irrefl a : bytes_ltb a a = false.
+Proof. induction a as [|x a IH]; [reflexivity|]. simpl. rewrite IH, N.ltb_irrefl, N.eqb_refl. reflexivity. Qed.
+
+Lemma ltb_trans a : forall b c, bytes_ltb a b = true -> bytes_ltb b c = true -> bytes_ltb a c = true.
+Proof.
+  induction a as [|x a IH]; intros [|y b] [|z c] H1 H2; simpl in *; try discriminate; try reflexivity.
+  apply orb_true_iff in H1. apply orb_true_iff in H2. apply orb_true_iff.
+  destruct H1 as [H1 | H1], H2 as [H2 | H2].
+  - left. lia.
+  - apply andb_true_iff in H2 as [E _]. left. lia.
+  - apply andb_true_iff in H1 as [E _]. left. lia.
+  - apply andb_true_iff in H1 as [E1 L1]. apply andb_true_iff in H2 as [E2 L2]. right.
+    apply andb_true_iff. split; [lia | eapply IH; eassumption].
+Qed.
+
+Lemma ltb_asym a b : bytes_ltb a b = true -> bytes_ltb b a = false.
+Proof.
+  intros H. destruct (bytes_ltb b a) eqn:E; [|reflexivity].
+  pose proof (ltb_trans _ _ _ H E) as C. rewrite ltb_irrefl in C. discriminate.
+Qed.
+
+Lemma ltb_neq a b : bytes_ltb a b = true -> bytes_eqb a b = false.
+Proof. intros H. apply bytes_eqb_neq. intros ->. rewrite ltb_irrefl in H. discriminate. Qed.
+
+Lemma ltb_total a : forall b, bytes_ltb a b = false -> bytes_eqb a b = false -> bytes_ltb b a = true.
+Proof.
+  induction a as [|x a IH]; intros [|y b] H1 H2; simpl in *; try discriminate; try reflexivity.
+  apply orb_false_iff in H1 as [L1 L2].
+  destruct (x =? y) eqn:E.
+  - simpl in *. apply orb_true_iff. right. apply andb_true_iff. split; [lia|]. apply IH; assumption.
+  - apply orb_true_iff. left. lia.
+Qed.
+
+(* ---------- the collection is a finite map ---------- *)
+
+Definition key_lt (a b : bytes * bytes) : Prop := bytes_ltb (fst a) (fst b) = true.
+Definition keys_sorted (m : coll) : Prop := StronglySorted key_lt m.
+
+Lemma get_set_same n p m : get n (set n p m) = Some p.
+Proof.
+  induction m as [|[n' p'] m IH]; simpl; [rewrite bytes_eqb_refl; reflexivity|].
+  destruct (bytes_ltb n n') eqn:L; [simpl; rewrite bytes_eqb_refl; reflexivity|].
+  destruct (bytes_eqb n n') eqn:E; simpl; [rewrite bytes_eqb_refl; reflexivity|].
+  rewrite E. exact IH.
+Qed.
+
+Lemma get_set_other n n' p m : n' <> n -> get n' (set n p m) = get n' m.
+Proof.
+  intros Hne. induction m as [|[n1 p1] m IH]; simpl.
+  - rewrite bytes_eqb_neq by assumption. reflexivity.
+  - destruct (bytes_ltb n n1) eqn:L; [simpl; rewrite (bytes_eqb_neq n' n) by assumption; reflexivity|].
+    destruct (bytes_eqb n n1) eqn:E.
+    + apply bytes_eqb_eq in E. subst n1. simpl. rewrite (bytes_eqb_neq n' n) by assumption. reflexivity.
+    + simpl. rewrite IH. reflexivity.
+Qed.
+
+Lemma get_remove_other n n' m : n' <> n -> get n' (remove n m) = get n' m.
+Proof.
+  intros Hne. induction m as [|[n1 p1] m IH]; simpl; [reflexivity|].
+  destruct (bytes_eqb n n1) eqn:E.
+  - apply bytes_eqb_eq in E. subst n1. rewrite (bytes_eqb_neq n' n) by assumption. reflexivity.
+  - simpl. rewrite IH. reflexivity.
+Qed.
+
+Lemma get_none_above n m : Forall (fun e => bytes_ltb n (fst e) = true) m -> get n m = None.
+Proof.
+  induction 1 as [|[n1 p1] m H _ IH]; [reflexivity|]. simpl in *. rewrite (ltb_neq _ _ H). exact IH.
+Qed.
+
+Lemma sorted_inv e m : keys_sorted (e :: m) -> keys_sorted m /\ Forall (key_lt e) m.
+Proof. intros H. inversion H; subst. split; assumption. Qed.
+
+Lemma get_remove_same n m : keys_sorted m -> get n (remove n m) = None.
+Proof.
+  induction m as [|[n1 p1] m IH]; intros Hs; [reflexivity|].
+  apply sorted_inv in Hs as [Hs Hall]. simpl.
+  destruct (bytes_eqb n n1) eqn:E.
+  - apply bytes_eqb_eq in E. subst n1. apply get_none_above. exact Hall.
+  - simpl. rewrite E. apply IH, Hs.
+Qed.
+
+Lemma has_get n m : has n m = true <-> exists p, get n m = Some p.
+Proof. unfold has. destruct (get n m); split; intros H; try discriminate; eauto. destruct H; discriminate. Qed.
+
+(* keys of the result of set / remove *)
+Lemma set_forall (Q : bytes * bytes -> Prop) n p m : Q (n, p) -> Forall Q m -> Forall Q (set n p m).
+Proof.
+  intros Hq. induction 1 as [|[n1 p1] m H1 Hm IH]; simpl; [constructor; [assumption | constructor]|].
+  destruct (bytes_ltb n n1); [constructor; [assumption | constructor; assumption]|].
+  destruct (bytes_eqb n n1); constructor; assumption.
+Qed.
+
+Lemma remove_forall (Q : bytes * bytes -> Prop) n m : Forall Q m -> Forall Q (remove n m).
+Proof.
+  induction 1 as [|[n1 p1] m H1 Hm IH]; simpl; [constructor|].
+  destruct (bytes_eqb n n1); [assumption | constructor; assumption].
+Qed.
+
+Lemma set_sorted n p m : keys_sorted m -> keys_sorted (set n p m).
+Proof.
+  induction m as [|[n1 p1] m IH]; intros Hs; simpl.
+  - constructor; constructor.
+  - apply sorted_inv in Hs as [Hs Hall].
+    destruct (bytes_ltb n n1) eqn:L.
+    + constructor; [constructor; assumption|]. constructor; [exact L|].
+      eapply Forall_impl; [|exact Hall]. intros e He. unfold key_lt in *. simpl in *. eapply ltb_trans; eassumption.
+    + destruct (bytes_eqb n n1) eqn:E.
+      * apply bytes_eqb_eq in E. subst n1. constructor; assumption.
+      * constructor; [apply IH, Hs|]. apply set_forall; [|exact Hall].
+        unfold key_lt. simpl. apply ltb_total; [assumption|]. rewrite bytes_eqb_sym in E. rewrite bytes_eqb_sym. exact E.
+Qed.
+
+Lemma remove_sorted n m : keys_sorted m -> keys_sorted (remove n m).
+Proof.
+  induction m as [|[n1 p1] m IH]; intros Hs; simpl; [constructor|].
+  apply sorted_inv in Hs as [Hs Hall].
+  destruct (bytes_eqb n n1); [assumption|]. constructor; [apply IH, Hs | apply remove_forall, Hall].
+Qed.
+
+(* appending a binding whose name is above all others *)
+Lemma set_append n p m : Forall (fun e => bytes_ltb (fst e) n = true) m -> set n p m = m ++ [(n, p)].
+Proof.
+  induction 1 as [|[n1 p1] m H _ IH]; [reflexivity|]. simpl in *.
+  rewrite (ltb_asym _ _ H). rewrite bytes_eqb_sym, (ltb_neq _ _ H). rewrite IH. reflexivity.
+Qed.
+
+(* All() changes nothing on the canonical representation *)
+Lemma all_sorted_id m : keys_sorted m -> all m = m.
+Proof.
+  induction m as [|e m IH]; intros Hs; [reflexivity|].
+  apply sorted_inv in Hs as [Hs Hall]. unfold all in *. cbn [fold_right]. rewrite (IH Hs).
+  destruct m as [|x m]; [reflexivity|]. simpl. inversion Hall; subst. unfold key_lt in *.
+  rewrite (ltb_asym _ _ H1). reflexivity.
+Qed.
+
+(* ---------- the iteration order of the Go map cannot matter ---------- *)
+
+Definition key_le (a b : bytes * bytes) : Prop := bytes_ltb (fst b) (fst a) = false.
+
+Lemma le_trans a b c : bytes_ltb b a = false -> bytes_ltb c b = false -> bytes_ltb c a = false.
+Proof.
+  intros H1 H2. destruct (bytes_ltb c a) eqn:E; [|reflexivity]. exfalso.
+  destruct (bytes_eqb b a) eqn:Q.
+  - apply bytes_eqb_eq in Q. subst. congruence.
+  - pose proof (ltb_total b a H1 Q) as L. pose proof (ltb_trans _ _ _ E L). congruence.
+Qed.
+
+Lemma insert_perm e l : Permutation (insert_sorted e l) (e :: l).
+Proof.
+  induction l as [|x l IH]; [reflexivity|]. simpl. destruct (bytes_ltb (fst x) (fst e)); [|reflexivity].
+  rewrite IH. apply perm_swap.
+Qed.
+
+Lemma all_is_perm c : Permutation (all c) c.
+Proof.
+  induction c as [|e c IH]; [reflexivity|]. unfold all in *. cbn [fold_right]. rewrite insert_perm. constructor. exact IH.
+Qed.
+
+Lemma insert_le_sorted e l : StronglySorted key_le l -> StronglySorted key_le (insert_sorted e l).
+Proof.
+  induction l as [|x l IH]; intros Hs; [constructor; constructor|].
+  inversion Hs as [|? ? Hl Hall]; subst. simpl. destruct (bytes_ltb (fst x) (fst e)) eqn:L.
+  - constructor; [apply IH, Hl|].
+    eapply Permutation_Forall; [symmetry; apply insert_perm|]. constructor; [|exact Hall].
+    unfold key_le. apply ltb_asym, L.
+  - constructor; [exact Hs|]. constructor; [exact L|].
+    eapply Forall_impl; [|exact Hall]. intros a Ha. unfold key_le in *. eapply le_trans; eassumption.
+Qed.
+
+Lemma all_le_sorted c : StronglySorted key_le (all c).
+Proof.
+  induction c as [|e c IH]; [constructor|]. unfold all in *. cbn [fold_right]. apply insert_le_sorted, IH.
+Qed.
+
+Lemma sorted_perm_unique : forall l2 l1, StronglySorted key_le l1 -> keys_sorted l2 -> Permutation l1 l2 -> l1 = l2.
+Proof.
+  induction l2 as [|y l2 IH]; intros l1 H1 H2 Hp.
+  - apply Permutation_sym, Permutation_nil in Hp. exact Hp.
+  - destruct l1 as [|x l1]; [apply Permutation_nil in Hp; discriminate|].
+    inversion H1 as [|? ? H1l H1all]; subst. apply sorted_inv in H2 as [H2l H2all].
+    assert (x = y) as ->.
+    { assert (Hx : In x (y :: l2)) by (eapply Permutation_in; [exact Hp | left; reflexivity]).
+      assert (Hy : In y (x :: l1)) by (eapply Permutation_in; [symmetry; exact Hp | left; reflexivity]).
+      destruct Hx as [-> | Hx]; [reflexivity|]. destruct Hy as [-> | Hy]; [reflexivity|]. exfalso.
+      rewrite Forall_forall in H1all, H2all.
+      specialize (H1all y Hy). specialize (H2all x Hx). unfold key_le, key_lt in *. congruence. }
+    f_equal. apply IH; [assumption | assumption | eapply Permutation_cons_inv; exact Hp].
+Qed.
+
+(* All() of the bindings in ANY order is the canonical representation *)
+Theorem all_perm c m : Permutation c m -> keys_sorted m -> all c = m.
+Proof.
+  intros Hp Hs. apply sorted_perm_unique; [apply all_le_sorted | exact Hs|].
+  rewrite all_is_perm. exact Hp.
+Qed.
+
+(* ---------- names ---------- *)
+
+Lemma trim_left_at_idem s : trim_left_at (trim_left_at s) = trim_left_at s.
+Proof.
+  induction s as [|c s IH]; [reflexivity|]. simpl. destruct (c =? 64) eqn:E; [exact IH|].
+  simpl. rewrite E. reflexivity.
+Qed.
+
+Lemma new_name_idem s : new_name (new_name s) = new_name s.
+Proof.
+  unfold new_name. destruct (trim_left_at s) as [|c t] eqn:E; [reflexivity|].
+  rewrite <- E, trim_left_at_idem, E. reflexivity.
+Qed.
+
+(* a name is in normal form iff it is not empty and does not start with the prefix character *)
+Lemma new_name_fixed n : new_name n = n <-> n <> [] /\ (forall t, n <> 64 :: t).
+Proof.
+  unfold new_name. destruct n as [|c t]; simpl.
+  - split; [discriminate | intros [H _]; congruence].
+  - destruct (c =? 64) eqn:E.
+    + apply N.eqb_eq in E. subst c. split.
+      * intros H. exfalso.
+        assert (Hl : forall s, (length (trim_left_at s) <= length s)%nat).
+        { induction s as [|x s IHs]; simpl; [lia|]. destruct (x =? 64); simpl; lia. }
+        destruct (trim_left_at t) as [|x r] eqn:Et; [discriminate|].
+        specialize (Hl t). rewrite Et in Hl. apply (f_equal (@length N)) in H. simpl in *. lia.
+      * intros [_ H]. exfalso. apply (H t). reflexivity.
+    + split; [|reflexivity]. intros _. split; [discriminate|]. intros t' H. inversion H; subst. discriminate.
+Qed.
+
+Lemma valid_utf8_trim s : valid_utf8 s -> valid_utf8 (trim_left_at s).
+Proof.
+  induction s as [|c s IH]; intros H; [exact H|]. simpl. destruct (c =? 64) eqn:E; [|exact H].
+  apply N.eqb_eq in E. subst c. apply IH. apply (valid_utf8_cons_ascii 64 s); [lia | exact H].
+Qed.
+
+Lemma valid_utf8_new_name s : valid_utf8 s -> valid_utf8 (new_name s).
+Proof.
+  intros H. unfold new_name. pose proof (valid_utf8_trim s H) as Ht.
+  destruct (trim_left_at s); [reflexivity | exact Ht].
+Qed.
+
+(* kong's argument transcoding is the identity on valid UTF-8 *)
+Lemma kong_arg_valid s : valid_utf8 s -> kong_arg s = s.
+Proof. intros H. unfold kong_arg. rewrite json_string_roundtrip by assumption. reflexivity. Qed.
+
+Section OS.
+  Variable abs : bytes -> bytes.
+  Variable fstat : bytes -> fstatus.
+  Variable dir_of : bytes -> bytes.
+  Variable base_of : bytes -> bytes.
+  Hypothesis abs_is_abs : forall p, is_abs (abs p) = true.
+  Hypothesis abs_idem : forall p, abs (abs p) = abs p.
+  Hypothesis abs_utf8 : forall p, valid_utf8 p -> valid_utf8 (abs p).
+
+  Notation from_json := (from_json abs).
+  Notation run_op := (run_op abs fstat dir_of base_of).
+  Notation spec_op := (spec_op abs fstat dir_of base_of).
+
+  (* ---------- the invariant ---------- *)
+
+  Definition entry_ok (e : bytes * bytes) : Prop :=
+    new_name (fst e) = fst e /\ valid_utf8 (fst e) /\ valid_utf8 (snd e) /\ abs (snd e) = snd e.
+
+  Definition db_ok (m : coll) : Prop := Forall entry_ok m /\ keys_sorted m.
+
+  Lemma entry_ok_abs e : entry_ok e -> is_abs (snd e) = true.
+  Proof. intros (_ & _ & _ & H). rewrite <- H. apply abs_is_abs. Qed.
+
+  Lemma db_ok_nil : db_ok [].
+  Proof. split; constructor. Qed.
+
+  Lemma db_ok_set n p m : db_ok m -> entry_ok (n, p) -> db_ok (set n p m).
+  Proof. intros [Hf Hs] He. split; [apply set_forall; assumption | apply set_sorted, Hs]. Qed.
+
+  Lemma db_ok_remove n m : db_ok m -> db_ok (remove n m).
+  Proof. intros [Hf Hs]. split; [apply remove_forall, Hf | apply remove_sorted, Hs]. Qed.
+
+  Lemma new_file_abs p : new_file abs p = Ok (abs p).
+  Proof. unfold new_file. rewrite abs_is_abs. reflexivity. Qed.
+
+  Lemma new_file_fixed p : abs p = p -> new_file abs p = Ok p.
+  Proof. intros H. rewrite new_file_abs, H. reflexivity. Qed.
+
+  (* ---------- the database file: write, then read ---------- *)
+
+  Definition raw_of (e : bytes * bytes) : raw_entry := {| re_name := Some (fst e); re_path := Some (snd e) |}.
+
+  Lemma decode_entries_written l : decode_entries (map entry_json l) = Some (map raw_of l).
+  Proof.
+    induction l as [|[n p] l IH]; [reflexivity|]. cbn [map decode_entries]. rewrite IH.
+    replace (decode_entry (entry_json (n, p))) with (Some (raw_of (n, p))); [reflexivity|].
+    unfold entry_json, decode_entry, decode_fields. cbn [fst snd].
+    change (key_is key_name key_name) with true. change (key_is key_name key_path) with false.
+    change (key_is key_path key_path) with true. cbv iota. reflexivity.
+  Qed.
+
+  Lemma load_written l : forall acc, Forall entry_ok l -> keys_sorted (acc ++ l) ->
+    load_entries abs (map raw_of l) acc = Ok (acc ++ l).
+  Proof.
+    induction l as [|[n p] l IH]; intros acc Hok Hs; [rewrite app_nil_r; reflexivity|].
+    inversion Hok as [|? ? He Hl]; subst.
+    cbn [map load_entries raw_of re_name re_path fst snd].
+    pose proof (entry_ok_abs _ He) as Hab. cbn [snd] in Hab. rewrite Hab.
+    destruct He as (Hn & _ & _ & Ha). cbn [fst snd] in *.
+    rewrite (new_file_fixed p Ha). cbn [bind]. rewrite Hn.
+    assert (Habove : Forall (fun e => bytes_ltb (fst e) n = true) acc).
+    { clear - Hs. induction acc as [|a acc IHa]; [constructor|].
+      cbn [app] in Hs. apply sorted_inv in Hs as [Hs Hall]. constructor; [|apply IHa, Hs].
+      apply Forall_app in Hall as [_ Hall]. inversion Hall; subst. assumption. }
+    rewrite (set_append n p acc Habove).
+    rewrite (IH (acc ++ [(n, p)]) Hl); rewrite <- app_assoc; [reflexivity | exact Hs].
+  Qed.
+
+  Lemma json_ok_written l : Forall entry_ok l -> json_ok (JArr (map entry_json l)).
+  Proof.
+    induction 1 as [|[n p] l (_ & Hn & Hp & _) _ IH]; [exact I|].
+    cbn [map]. apply json_ok_arr. split; [|exact IH].
+    cbn [fst snd] in *. unfold entry_json. cbn [fst snd]. simpl. repeat split; try assumption; reflexivity.
+  Qed.
+
+  Lemma from_json_nonempty c t :
+    from_json (c :: t) =
+    match parse_json (c :: t) with
+    | Ok JNull => Ok []
+    | Ok (JArr l) => match decode_entries l with Some es => load_entries abs es [] | None => malformed_db end
+    | Ok _ => malformed_db
+    | Err _ => malformed_db
+    | Crash x => Crash x
+    end.
+  Proof. reflexivity. Qed.
+
+  Theorem db_roundtrip m : db_ok m -> from_json (to_json m) = Ok m.
+  Proof.
+    intros [Hok Hs]. unfold to_json. rewrite (all_sorted_id m Hs).
+    destruct m as [|e m]; [reflexivity|].
+    assert (Hshape : exists c t, encoder_output true (JArr (map entry_json (e :: m))) = c :: t).
+    { eexists; eexists. unfold encoder_output, print_pretty. cbn [map print_json app]. reflexivity. }
+    destruct Hshape as (c & t & Hshape).
+    assert (Hp := parse_encoder_output true _ (json_ok_written _ Hok)).
+    rewrite Hshape in *. rewrite from_json_nonempty, Hp.
+    rewrite decode_entries_written. apply (load_written (e :: m) []); assumption.
+  Qed.
+
+  Lemma to_json_nil : to_json [] = [].
+  Proof. reflexivity. Qed.
+
+  Lemma from_json_nil : from_json [] = Ok [].
+  Proof. reflexivity. Qed.
+
+  (* ---------- one command: the file-level run against the map-level specification ---------- *)
+
+  Definition op_ok (o : op) : Prop :=
+    match o with
+    | OpSet path name _ => valid_utf8 path /\ valid_utf8 name
+    | _ => True
+    end.
+
+  Lemma abs_starts_with_slash p : is_abs p = true -> exists t, p = 47 :: t.
+  Proof. destruct p as [|c t]; simpl; [discriminate|]. intros H. apply N.eqb_eq in H. subst. eauto. Qed.
+
+  (* the check "bookmarks set" makes on its target: it can be read and is a valid file *)
+  Lemma read_inputs_target file m p : from_json file = Ok m -> abs p = p ->
+    read_inputs abs fstat file [p] =
+    match fstat p with FValid => Ok [p] | FInvalid => Err (EOther 8) | FMissing => Err (EOther 4) end.
+  Proof.
+    intros Hf Hp. unfold read_inputs. rewrite Hf. cbn [bind].
+    assert (Habs : is_abs p = true) by (rewrite <- Hp; apply abs_is_abs).
+    destruct (abs_starts_with_slash p Habs) as (t & ->).
+    unfold retrieve. cbn [filter is_blank_arg forallb]. change (47 =? 32) with false. cbn [andb negb].
+    cbn [retrieve_each]. unfold resolve_arg. cbn [is_bookmark_arg]. change (47 =? 64) with false. cbv iota.
+    rewrite (new_file_fixed _ Hp). cbn [bind].
+    destruct (fstat (47 :: t)) eqn:E; cbn [bind forallb]; rewrite ?E; reflexivity.
+  Qed.
+
+  Lemma set_name_cases name :
+    match name with [] => new_name default_name | _ => new_name name end = new_name name.
+  Proof. destruct name; reflexivity. Qed.
+
+  Theorem step_refines o file m : db_ok m -> from_json file = Ok m -> op_ok o ->
+    let cr := step (run_op o) file in
+    let sr := step (spec_op o) m in
+    snd cr = snd sr /\ db_ok (fst sr) /\ from_json (fst cr) = Ok (fst sr).
+  Proof.
+    intros Hdb Hf Hop. unfold step. destruct o as [path name force | name | | | name k | args]; cbn [run_op spec_op].
+    - (* set *)
+      destruct Hop as [Hpath Hname].
+      unfold cmd_set. rewrite new_file_abs. cbn [bind]. rewrite set_name_cases.
+      rewrite (read_inputs_target file m (abs path) Hf (abs_idem path)). rewrite Hf. cbn [bind].
+      assert (Hentry : entry_ok (new_name name, abs path)).
+      { split; [|split; [|split]]; cbn [fst snd];
+          [apply new_name_idem | apply valid_utf8_new_name, Hname | apply abs_utf8, Hpath | apply abs_idem]. }
+      pose proof (db_ok_set _ _ _ Hdb Hentry) as Hdb'.
+      pose proof (db_roundtrip _ Hdb') as Hrt.
+      destruct force; cbn [orb bind fst snd].
+      + exact (conj eq_refl (conj Hdb' Hrt)).
+      + destruct (fstat (abs path)); cbn [fst snd bind].
+        * exact (conj eq_refl (conj Hdb Hf)).
+        * exact (conj eq_refl (conj Hdb Hf)).
+        * exact (conj eq_refl (conj Hdb' Hrt)).
+    - (* unset *)
+      unfold cmd_unset. rewrite Hf. cbn [bind].
+      destruct (has (new_name name) m); cbn [fst snd].
+      + exact (conj eq_refl (conj (db_ok_remove _ _ Hdb) (db_roundtrip _ (db_ok_remove _ _ Hdb)))).
+      + exact (conj eq_refl (conj Hdb Hf)).
+    - (* clear *)
+      unfold cmd_clear. rewrite Hf. cbn [bind fst snd].
+      exact (conj eq_refl (conj db_ok_nil eq_refl)).
+    - (* list *)
+      unfold cmd_list. rewrite Hf. cbn [bind]. rewrite (all_sorted_id m (proj2 Hdb)).
+      destruct m; cbn [fst snd]; exact (conj eq_refl (conj Hdb Hf)).
+    - (* info *)
+      unfold cmd_info. rewrite Hf. cbn [bind].
+      destruct (get (new_name name) m); cbn [fst snd]; exact (conj eq_refl (conj Hdb Hf)).
+    - (* resolve *)
+      unfold cmd_resolve, read_inputs, spec_resolve. rewrite Hf. cbn [bind].
+      destruct (retrieve abs fstat m args) as [fs | e | c]; cbn [bind fst snd].
+      + destruct fs as [|f fs]; cbn [fst snd]; [exact (conj eq_refl (conj Hdb Hf))|].
+        destruct (forallb _ (f :: fs)); cbn [bind fst snd]; exact (conj eq_refl (conj Hdb Hf)).
+      + exact (conj eq_refl (conj Hdb Hf)).
+      + exact (conj eq_refl (conj Hdb Hf)).
+  Qed.
+
+  (* ---------- histories ---------- *)
+
+  Definition agree (cr : bytes * reply) (sr : coll * reply) : Prop :=
+    snd cr = snd sr /\ db_ok (fst sr) /\ from_json (fst cr) = Ok (fst sr).
+
+  Theorem history_refines ops : forall file m, db_ok m -> from_json file = Ok m -> Forall op_ok ops ->
+    Forall2 agree (run_history abs fstat dir_of base_of ops file) (spec_history abs fstat dir_of base_of ops m).
+  Proof.
+    unfold run_history, spec_history.
+    induction ops as [|o ops IH]; intros file m Hdb Hf Hops; [constructor|].
+    inversion Hops as [|? ? Ho Hrest]; subst. cbn [trace].
+    destruct (step_refines o file m Hdb Hf Ho) as (H1 & H2 & H3).
+    constructor; [split; [exact H1 | split; [exact H2 | exact H3]]|].
+    apply IH; assumption.
+  Qed.
+
+  (* no command of a history panics *)
+  Theorem spec_never_panics o m : snd (step (spec_op o) m) <> RPanic.
+  Proof.
+    unfold step. destruct o as [path name force | name | | | name k | args]; cbn [spec_op].
+    - destruct (force || _); cbn; discriminate.
+    - destruct (has _ m); cbn; discriminate.
+    - cbn; discriminate.
+    - destruct m; cbn; discriminate.
+    - destruct (get _ m); cbn; discriminate.
+    - unfold spec_resolve, retrieve.
+      assert (Hre : forall a, exists r, retrieve_each abs fstat m a = Ok r).
+      { induction a as [|x a [r IHa]]; [eexists; reflexivity|]. cbn [retrieve_each]. rewrite IHa.
+        destruct (resolve_arg m x); cbn [bind]; [rewrite new_file_abs; cbn [bind]|];
+          destruct r; [destruct (fstat _)|]; eexists; reflexivity. }
+      match goal with |- context [retrieve_each abs fstat m ?a] => destruct (Hre a) as ([fs e] & ->) end.
+      cbn [bind]. destruct e; cbn [bind]; [cbn; discriminate|].
+      destruct fs; cbn [bind]; [cbn; discriminate|]. destruct (forallb _ _); cbn; discriminate.
+  Qed.
+
+  (* unset of a name the map does not have: exit code 6, and (by [step]) the file stays as it is *)
+  Theorem unset_unknown file m name : from_json file = Ok m -> get (new_name name) m = None ->
+    run_op (OpUnset name) file = Err (EOther 6) /\ step (run_op (OpUnset name)) file = (file, RFail (EOther 6)).
+  Proof.
+    intros Hf Hg. unfold step. cbn [run_op]. unfold cmd_unset. rewrite Hf. cbn [bind]. unfold has. rewrite Hg. split; reflexivity.
+  Qed.
+
+  (* unset of a known name removes exactly that name *)
+  Theorem unset_known file m name p : db_ok m -> from_json file = Ok m -> get (new_name name) m = Some p ->
+    exists file' out, run_op (OpUnset name) file = Ok (file', out) /\
+      from_json file' = Ok (remove (new_name name) m) /\
+      get (new_name name) (remove (new_name name) m) = None /\
+      (forall n', n' <> new_name name -> get n' (remove (new_name name) m) = get n' m).
+  Proof.
+    intros Hdb Hf Hg. cbn [run_op]. unfold cmd_unset. rewrite Hf. cbn [bind]. unfold has. rewrite Hg.
+    eexists; eexists. split; [reflexivity|]. split; [apply db_roundtrip, db_ok_remove, Hdb|].
+    split; [apply get_remove_same, Hdb | intros; apply get_remove_other; assumption].
+  Qed.
+
+  (* set adds or overwrites exactly one name *)
+  Theorem set_effect file m path name force : db_ok m -> from_json file = Ok m ->
+    valid_utf8 path -> valid_utf8 name -> (force = true \/ fstat (abs path) = FValid) ->
+    exists file' out, run_op (OpSet path name force) file = Ok (file', out) /\
+      from_json file' = Ok (set (new_name name) (abs path) m) /\
+      get (new_name name) (set (new_name name) (abs path) m) = Some (abs path) /\
+      (forall n', n' <> new_name name -> get n' (set (new_name name) (abs path) m) = get n' m).
+  Proof.
+    intros Hdb Hf Hpath Hname Hallowed.
+    pose proof (step_refines (OpSet path name force) file m Hdb Hf (conj Hpath Hname)) as (H1 & H2 & H3).
+    unfold step in *. cbn [spec_op] in H1, H2, H3.
+    assert (Hc : force || match fstat (abs path) with FValid => true | _ => false end = true).
+    { destruct Hallowed as [-> | ->]; [reflexivity | apply orb_true_r]. }
+    rewrite Hc in *. cbn [fst snd] in *.
+    destruct (run_op (OpSet path name force) file) as [[file' out] | e | c] eqn:E; cbn [fst snd] in *; try discriminate.
+    exists file', out. split; [reflexivity|]. split; [exact H3|].
+    split; [apply get_set_same | intros; apply get_set_other; assumption].
+  Qed.
+
+  (* the listing shows exactly the map's bindings, in strictly ascending name order *)
+  Theorem list_sorted file m : db_ok m -> from_json file = Ok m -> m <> [] ->
+    run_op OpList file = Ok (file, flat_map line_of m) /\ keys_sorted m.
+  Proof.
+    intros Hdb Hf Hne. cbn [run_op]. unfold cmd_list. rewrite Hf. cbn [bind].
+    rewrite (all_sorted_id m (proj2 Hdb)). destruct m; [congruence|]. split; [reflexivity | apply Hdb].
+  Qed.
+End OS.
